@@ -24,9 +24,10 @@ enum Op {
     DInsert(Q4), DRemove(Q4), VInsert(Option<Tid>, T3), VRemove(Option<Tid>, T3),
     QUnion(MD, MD, MD), QPUnion(GD, MD, MD, MD), QGraph(Option<Tid>, MD, MD, MD),
     QGraphAll(Option<Tid>), QUnionAll, QPUnionAll(GD), QDirect(MD, MD, MD, GD),
+    VRemoveMatching(Option<Tid>, MD, MD, MD), VRetainMatching(Option<Tid>, MD, MD, MD), QUnionAtoms(u64), QGraphAtoms(Option<Tid>, u64),
 }
 #[derive(Clone, Debug, PartialEq)]
-enum Out { Flag(bool), Triples(Vec<T3>), Quads(Vec<Q4>), Err(String) }
+enum Out { Flag(bool), Triples(Vec<T3>), Quads(Vec<Q4>), Count(u64), Terms(Vec<Tid>), Err(String) }
 
 #[derive(Clone, Debug)]
 enum GOp { Insert(Q4), Remove(Q4), Contains(Q4), Query(MD, MD, MD, GD), All, DirectInsert(T3), DirectRemove(T3) }
@@ -77,8 +78,14 @@ fn gm(c: &Ctx, d: &GD, r: &mut Rng) -> GM {
 fn sort3(mut v: Vec<T3>) -> Vec<T3> { v.sort(); v }
 fn sort4(mut v: Vec<Q4>) -> Vec<Q4> { v.sort(); v }
 
+macro_rules! terms_of { ($c:expr, $g:expr, $kind:expr) => {{
+    let mut v: Vec<Tid> = vec![]; let mut err: Option<String> = None;
+    macro_rules! coll { ($it:expr) => { for t in $it { match t { Ok(t) => v.push($c.id(t)), Err(e) => { err = Some(format!("{e:?}")); break } } } }; }
+    match $kind { 0 => coll!($g.blank_nodes()), 1 => coll!($g.iris()), 2 => coll!($g.literals()), 3 => coll!($g.quoted_triples()), _ => coll!($g.variables()) }
+    v.sort(); v.dedup(); match err { Some(e) => Out::Err(e), None => Out::Terms(v) }
+}}; }
 fn run_ds<D>(c: &Ctx, init: &[Q4], ops: &[Op], r: &mut Rng) -> Vec<Out>
-where D: MutableDataset + Default, D::Error: std::fmt::Debug, D::MutationError: std::fmt::Debug,
+where D: MutableDataset + Default, D::Error: std::fmt::Debug, D::MutationError: std::fmt::Debug + From<D::Error>, for<'x> sophia_api::dataset::DTerm<'x, D>: Clone,
 {
     let mut d = D::default();
     for (t, g) in init {
@@ -108,6 +115,16 @@ where D: MutableDataset + Default, D::Error: std::fmt::Debug, D::MutationError: 
             Op::QGraphAll(g) => { let v = DatasetGraph::new(&d, g.map(|g| c.term(g, r))); triples!(v.triples()) }
             Op::QUnionAll => { let v = UnionGraph::new(&d); triples!(v.triples()) }
             Op::QPUnionAll(g) => { let m = gm(c, g, r); let v = PartialUnionGraph::new(&d, m.matcher_ref()); triples!(v.triples()) }
+            Op::VRemoveMatching(g, s, p, o) => {
+                let mut v = DatasetGraph::new(&mut d, g.map(|g| c.term(g, r)));
+                match v.remove_matching(tm(c, s, r), tm(c, p, r), tm(c, o, r)) { Ok(n) => Out::Count(n as u64), Err(e) => Out::Err(format!("{e:?}")) }
+            }
+            Op::VRetainMatching(g, s, p, o) => {
+                let mut v = DatasetGraph::new(&mut d, g.map(|g| c.term(g, r)));
+                match v.retain_matching(tm(c, s, r), tm(c, p, r), tm(c, o, r)) { Ok(()) => Out::Flag(true), Err(e) => Out::Err(format!("{e:?}")) }
+            }
+            Op::QUnionAtoms(k) => { let v = UnionGraph::new(&d); terms_of!(c, v, *k) }
+            Op::QGraphAtoms(g, k) => { let v = DatasetGraph::new(&d, g.map(|g| c.term(g, r))); terms_of!(c, v, *k) }
             Op::QDirect(s, p, o, g) => {
                 let mut v = vec![]; let mut err = None;
                 for q in d.quads_matching(tm(c, s, r), tm(c, p, r), tm(c, o, r), gm(c, g, r)) {
@@ -153,6 +170,19 @@ where G: MutableGraph + Default, G::Error: std::fmt::Debug + std::error::Error, 
 fn md_ok(m: &MD, t: Tid) -> bool { match m { MD::Any => true, MD::OneOf(l) => l.contains(&t), MD::NotOneOf(l) => !l.contains(&t) } }
 fn gd_ok(m: &GD, g: Option<Tid>) -> bool { match m { GD::Any => true, GD::OneOf(l) => l.contains(&g), GD::NotOneOf(l) => !l.contains(&g) } }
 fn t_ok(s: &MD, p: &MD, o: &MD, t: &T3) -> bool { md_ok(s, t[0]) && md_ok(p, t[1]) && md_ok(o, t[2]) }
+/// (kind, atoms, triple constituents) of each pool identifier
+fn pool_info(id: Tid) -> (u64, Vec<Tid>, Vec<Tid>) {
+    match id {
+        4 | 5 => (0, vec![id], vec![]), 1 | 2 | 3 | 12 | 13 => (1, vec![id], vec![]), 6 | 7 | 8 | 9 | 15 => (2, vec![id], vec![]), 11 => (4, vec![id], vec![]),
+        10 => (3, vec![1, 3, 4], vec![10]), 16 => (3, vec![1, 3, 7], vec![16]), 14 => (3, vec![1, 3, 7, 3, 15], vec![14, 16]),
+        _ => unreachable!(),
+    }
+}
+fn atoms_oracle(ts: Vec<T3>, kind: u64) -> Vec<Tid> {
+    let mut v: Vec<Tid> = vec![];
+    for t in ts { for x in t { let (_, atoms, tc) = pool_info(x); if kind == 3 { v.extend(tc) } else { v.extend(atoms.into_iter().filter(|a| pool_info(*a).0 == kind)) } } }
+    v.sort(); v.dedup(); v
+}
 fn oracle_ds(init: &[Q4], ops: &[Op]) -> Vec<Out> {
     let mut set: Vec<Q4> = vec![];
     for q in init { if !set.contains(q) { set.push(*q) } }
@@ -170,6 +200,10 @@ fn oracle_ds(init: &[Q4], ops: &[Op]) -> Vec<Out> {
             Op::QUnionAll => Out::Triples(sort3(set.iter().map(|q| q.0).collect())),
             Op::QPUnionAll(g) => Out::Triples(sort3(set.iter().filter(|q| gd_ok(g, q.1)).map(|q| q.0).collect())),
             Op::QDirect(s, p, o, g) => Out::Quads(sort4(set.iter().filter(|q| gd_ok(g, q.1) && t_ok(s, p, o, &q.0)).cloned().collect())),
+            Op::VRemoveMatching(g, s, p, o) => { let n = set.iter().filter(|q| q.1 == *g && t_ok(s, p, o, &q.0)).count(); set.retain(|q| !(q.1 == *g && t_ok(s, p, o, &q.0))); Out::Count(n as u64) }
+            Op::VRetainMatching(g, s, p, o) => { set.retain(|q| q.1 != *g || t_ok(s, p, o, &q.0)); Out::Flag(true) }
+            Op::QUnionAtoms(k) => Out::Terms(atoms_oracle(set.iter().map(|q| q.0).collect(), *k)),
+            Op::QGraphAtoms(g, k) => Out::Terms(atoms_oracle(set.iter().filter(|q| q.1 == *g).map(|q| q.0).collect(), *k)),
         });
     }
     outs
@@ -193,7 +227,7 @@ fn oracle_gad(init: &[T3], ops: &[GOp]) -> Vec<GOut> {
 }
 
 // ---------- generation ----------
-const NT: u64 = 14; // pool size
+const NT: u64 = 16; // pool size
 fn gen_tid(r: &mut Rng) -> Tid { // skewed towards few terms so that collisions are common
     if r.chance(3, 4) { 1 + r.below(6) as u64 } else { 1 + r.below(NT as usize) as u64 }
 }
@@ -206,7 +240,9 @@ fn gen_gd(r: &mut Rng) -> GD {
     match r.below(10) { 0..=2 => GD::Any, 3..=5 => GD::OneOf(vec![gen_g(r)]), 6..=7 => GD::OneOf(vec![gen_g(r), gen_g(r)]), 8 => GD::NotOneOf(vec![gen_g(r)]), _ => GD::OneOf(vec![]) }
 }
 fn gen_op(r: &mut Rng) -> Op {
-    match r.below(16) {
+    match r.below(21) {
+        16 => Op::VRemoveMatching(gen_g(r), gen_md(r), gen_md(r), gen_md(r)), 17 => Op::VRetainMatching(gen_g(r), gen_md(r), gen_md(r), gen_md(r)),
+        18 | 19 => Op::QUnionAtoms(r.below(5) as u64), 20 => Op::QGraphAtoms(gen_g(r), r.below(5) as u64),
         0..=2 => Op::DInsert((gen_t3(r), gen_g(r))), 3 => Op::DRemove((gen_t3(r), gen_g(r))),
         4..=5 => Op::VInsert(gen_g(r), gen_t3(r)), 6..=7 => Op::VRemove(gen_g(r), gen_t3(r)),
         8 => Op::QUnion(gen_md(r), gen_md(r), gen_md(r)), 9 => Op::QPUnion(gen_gd(r), gen_md(r), gen_md(r), gen_md(r)),
@@ -240,6 +276,9 @@ fn c_op(o: &Op) -> String {
         Op::QGraphAll(g) => format!("QGraphAll {}", c_g(g)), Op::QUnionAll => "QUnionAll".into(),
         Op::QPUnionAll(g) => format!("QPUnionAll {}", c_gd(g)),
         Op::QDirect(s, p, o, g) => format!("QDirect {} {} {} {}", c_md(s), c_md(p), c_md(o), c_gd(g)),
+        Op::VRemoveMatching(g, s, p, o) => format!("VRemoveMatching {} {} {} {}", c_g(g), c_md(s), c_md(p), c_md(o)),
+        Op::VRetainMatching(g, s, p, o) => format!("VRetainMatching {} {} {} {}", c_g(g), c_md(s), c_md(p), c_md(o)),
+        Op::QUnionAtoms(k) => format!("QUnionAtoms {k}"), Op::QGraphAtoms(g, k) => format!("QGraphAtoms {} {k}", c_g(g)),
     }
 }
 fn c_out(o: &Out) -> String {
@@ -247,6 +286,7 @@ fn c_out(o: &Out) -> String {
         Out::Flag(b) => format!("OFlag {}", coq_bool(*b)),
         Out::Triples(l) => format!("OTriples {}", coq_list(l.iter().map(c_t3))),
         Out::Quads(l) => format!("OQuads {}", coq_list(l.iter().map(c_q4))),
+        Out::Count(n) => format!("OCount {n}"), Out::Terms(l) => format!("OTerms {}", coq_list(l.iter().map(|x| x.to_string()))),
         Out::Err(_) => "OFlag true; OFlag false".into(), // an error never matches the model: length differs
     }
 }
@@ -303,13 +343,13 @@ non-trivial = at least one mutation through a view that changes the store AND at
                 let k = outs.iter().zip(exp.iter()).position(|(x, y)| x != y).unwrap_or(0);
                 sum.oracle_failures.push((idx.to_string(), format!("store={} op#{k} {:?}: implementation returned {:?}, a plain set gives {:?}; full case: {text}", DS_STORES[store], ops.get(k), outs.get(k), exp.get(k))));
             }
-            let changed = ops.iter().zip(outs.iter()).any(|(o, x)| matches!(o, Op::VInsert(..) | Op::VRemove(..)) && *x == Out::Flag(true));
+            let changed = ops.iter().zip(outs.iter()).any(|(o, x)| (matches!(o, Op::VInsert(..) | Op::VRemove(..)) && *x == Out::Flag(true)) || matches!(x, Out::Count(n) if *n > 0));
             let nonempty = outs.iter().any(|x| matches!(x, Out::Triples(l) if !l.is_empty()) || matches!(x, Out::Quads(l) if !l.is_empty()));
             if seen.insert(text.clone()) && changed && nonempty { sum.distinct_nontrivial += 1; }
             sum.bump(&format!("store:{}", DS_STORES[store]));
             for o in &ops { sum.bump(&format!("op:{}", format!("{o:?}").split('(').next().unwrap())); }
             if sum.samples.len() < 3 { sum.samples.push(format!("case {idx}: {text} => {outs:?}")); }
-            cases.push((idx, format!("case_ok {} {} {}", coq_list(init.iter().map(c_q4)), coq_list(ops.iter().map(c_op)), coq_list(outs.iter().map(c_out)))));
+            cases.push((idx, format!("case_ok the_pool {} {} {}", coq_list(init.iter().map(c_q4)), coq_list(ops.iter().map(c_op)), coq_list(outs.iter().map(c_out)))));
         } else {
             let init: Vec<T3> = (0..ninit).map(|_| gen_t3(&mut r)).collect();
             let ops: Vec<GOp> = (0..nops).map(|_| gen_gop(&mut r)).collect();
@@ -339,7 +379,8 @@ non-trivial = at least one mutation through a view that changes the store AND at
         sum.evaluations += 1;
     }
     if a.only.is_none() {
-        sum.shards = write_shards(&a.out, "From Sophia.C11 Require Import Model.", &cases, a.shards);
+        let pool_def = format!("From Sophia.C11 Require Import Model.\nDefinition the_pool : pool := {}.", coq_list((1..=NT).map(|i| { let (k, at, tc) = pool_info(i); format!("({i}, ({k}, {}, {}))", coq_list(at.iter().map(|x| x.to_string())), coq_list(tc.iter().map(|x| x.to_string()))) })));
+        sum.shards = write_shards(&a.out, &pool_def, &cases, a.shards);
         std::fs::write(format!("{}/summary.json", a.out), sum.to_json()).unwrap();
     }
     println!("c11: {} cases, {} distinct non-trivial, {} oracle failures", sum.evaluations, sum.distinct_nontrivial, sum.oracle_failures.len());
